@@ -244,4 +244,22 @@ func VerifC15_NewIds() {
 	verifAssert(e4 == nil && e.k.GetDenomSupply(e.ctx, mine.Id) == 2 && len(e.k.GetMTs(e.ctx, mine.Id)) == 2, "minting more of an existing token creates no new token")
 	verifAssert(e.k.GetMTSupply(e.ctx, mine.Id, ofAlice) == a1+a3 && e.k.GetBalance(e.ctx, mine.Id, ofAlice, bob) == a3 && e.k.GetBalance(e.ctx, mine.Id, ofAlice, alice) == a1, "a further mint adds exactly its amount to the supply and to the recipient")
 	verifAssert(e.k.GetMTSupply(e.ctx, mine.Id, ofBob) == a2, "other tokens of the class are untouched")
+	// the other class creates tokens of its own: generated ids are never reused - not within a class, not across classes
+	var theirs types.Denom
+	for _, d := range ds {
+		if d.Name == "two" {
+			theirs = d
+		}
+	}
+	_, e5 := srv.MintMT(e.ctx, &types.MsgMintMT{DenomId: theirs.Id, Amount: 4, Sender: bob.String(), Recipient: bob.String()})
+	_, e6 := srv.MintMT(e.ctx, &types.MsgMintMT{DenomId: theirs.Id, Amount: 6, Sender: bob.String(), Recipient: alice.String()})
+	verifAssert(e5 == nil && e6 == nil, "the owner of the other class creates tokens in it")
+	all := map[string]int{}
+	for _, d := range ds {
+		for _, m := range e.k.GetMTs(e.ctx, d.Id) {
+			all[m.GetID()]++
+		}
+	}
+	verifAssert(len(all) == 4 && all[ofAlice] == 1 && all[ofBob] == 1, "generated token ids are never reused, not even in another class")
+	verifAssert(e.k.GetMTSupply(e.ctx, mine.Id, ofAlice) == a1+a3 && e.k.GetMTSupply(e.ctx, mine.Id, ofBob) == a2 && e.k.GetDenomSupply(e.ctx, mine.Id) == 2 && e.k.GetDenomSupply(e.ctx, theirs.Id) == 2, "tokens created in one class leave the other class alone")
 }
